@@ -109,6 +109,28 @@ def order(ctx: Any) -> List[Ob]:
                     if guards and early:
                         moved.append(n)
         obs.append(ob(R, ns, moved[0].ast if moved else 'if self.server_key == self.key: self.server = name; self.server_key = name.lower()', 'a host name that was defaulted to the instance name follows the instance when it is renamed (a description registered a second time is renamed with its host; else SRV target and addresses stay under the old, conflicting name)', bool(moved), '' if moved else 'the name setter leaves the host name alone: a defaulted host keeps the name the service was renamed away from'))
+        # the same as a decision table over what the host key is when the setter runs -- unset, the instance's own key (defaulted),
+        # another host's: only the defaulted one moves, it moves to the new name (spelled, and lower-cased for the key), the
+        # records built from it are forgotten; the instance name and key are replaced and the records named after the instance
+        # are forgotten in every case
+        def eff_ns(node: Any, evl: Any) -> List[Any]:
+            out = []
+            if node.kind == 'stmt':
+                for t, st in attr_stores(node.ast):
+                    a = self_attr(t, sme)
+                    if a and isinstance(st, ast.Assign):
+                        out.append((a, norm(st.value)))
+            return out
+
+        for host_key, label in ((None, 'no host yet'), ('k-inst', 'host defaulted to the instance name'), ('k-other', 'a host name of its own')):
+            oc_ns, und_ns = traces(ctx, ns, {f'{sme}.server_key': host_key, f'{sme}.key': 'k-inst'}, eff_ns, loop_bound=1)
+            got_ns = {frozenset(x for x in strip_ret(t) if isinstance(x, tuple) and len(x) == 2 and isinstance(x[0], str) and x[0] not in ('ret', 'raise')) for t in oc_ns}
+            always = {('_name', newp), ('key', f'{newp}.lower()'), ('_dns_service_cache', 'None'), ('_dns_pointer_cache', 'None'), ('_dns_text_cache', 'None')}
+            moved_set = {('server', newp), ('server_key', f'{newp}.lower()'), ('_dns_address_cache', 'None'), ('_get_address_and_nsec_records_cache', 'None')}
+            want_ns = always | (moved_set if host_key == 'k-inst' else set())
+            # memo resets beyond the required ones are harmless (they only cost a rebuild)
+            ok_ns = len(got_ns) == 1 and all(w in next(iter(got_ns)) for w in want_ns) and all(x in want_ns or (x[1] == 'None' and x[0].endswith('_cache')) for x in next(iter(got_ns))) and not und_ns
+            obs.append(ob(R, ns, f'rename, {label}', f'stores {sorted(want_ns)}', ok_ns, f'got {[sorted(g_) for g_ in got_ns]}; undecided {und_ns}'))
     badh = sorted(t for t in got if not host_ok(t))
     obs.append(ob(R, f, 'info.set_server_if_missing()', 'the default host name is derived from the final name: after the conflict check (which may rename the service), before the registry insert, and not pinned earlier (a renamed service must not announce its SRV target and addresses under the conflicting name)', not badh, f'paths {badh}'))
     # `custom TTLs`: a TTL handed to the registration call replaces BOTH TTLs of the description (host records and the others),
